@@ -8,11 +8,16 @@ from common import finish
 
 def run_numeric(ctx, sim, sim_num_quick, sim_num_thorough, exhaustive=None, e_sample_quick=None,
                 cse_settings=(False, True), rule="", scope="", assumptions=None, key_prefix="", force_ekf=False,
-                post=None, timeout=120, repo_tests=False):
+                post=None, timeout=120, repo_tests=False, corpus=None):
     quick = ctx.quick
     scns, stats = scen.generate(ctx, exhaustive, sim, sim_num=(sim_num_quick if quick else sim_num_thorough),
                                 sim_depth=90, e_sample=(e_sample_quick if quick else None))
     assumptions = assumptions or []
+    for path in (corpus or []):          # fixed inputs: the failing input of every recorded finding is exercised on every run
+        if scns is not None:
+            c = json.load(open(path))["scenario"]
+            c["_id"] = "corpus:" + path.split("/")[-1]
+            scns.append(c)
     if scns is None:
         ctx.violation("spec-invariant", stats["tlc_violation"][:800], stats)
         return finish(ctx, "model_checking", {"states": 1, "transitions": 1, "traces_validated_against_impl": 0,
